@@ -6,7 +6,7 @@
 // A case names its compile options by fixture id (fx) and its evaluate options
 // by shape id; this command owns one Go function per fixture id and one Go
 // value per shape id (what they are is stated in spec/C17.tla: FxSig,
-// ShapeValue). Every custom function is an instrumented mock: it records the
+// ShapeValOf). Every custom function is an instrumented mock: it records the
 // input collection and the arguments it was called with and returns what the
 // case configured (ret). Nothing here decides what is right.
 package main
